@@ -143,12 +143,15 @@ class PtrInt:
 
 
 class OffsetTok:
-    """offsetof-style token: byte distance from a base to base.path (sign = +1/-1)."""
-    __slots__ = ('path', 'sign')
+    """offsetof-style token: byte distance from a base to base.path (sign = +1/-1).
+    `tag` is set when the offset was computed for a concrete instantiation (offset_of::<RcBox<()>>): such a number is
+    only valid for that type's layout."""
+    __slots__ = ('path', 'sign', 'tag')
 
-    def __init__(self, path, sign=1):
+    def __init__(self, path, sign=1, tag=None):
         self.path = tuple(path)
         self.sign = sign
+        self.tag = tag
 
     def __repr__(self):
         return 'Offset(%s%r)' % ('-' if self.sign < 0 else '+', self.path)
